@@ -130,12 +130,12 @@ theorem insertsLast (t : HTree) : InsertsUnder (fun n => n.setKids (n.kids ++ [t
     cases n with
     | node h v ks =>
       simp only [HTree.setKids, HTree.kids]
-      rw [findList?_append]
+      rw [fa_findList?_append]
       simp only [findList?, (find?_none_iff _ _).2 hx]
       cases findList? x ks <;> rfl
   handles n a := by
     cases n with
-    | node h v ks => simp [HTree.setKids, HTree.kids, handlesList_append, handlesList]
+    | node h v ks => simp [HTree.setKids, HTree.kids, fa_handlesList_append, handlesList]
 
 theorem insertsFirst (t : HTree) : InsertsUnder (fun n => n.setKids (t :: n.kids)) t where
   handle n := by cases n; rfl
